@@ -85,6 +85,14 @@ def build_inputs(py):
     if py["scale"] == "linear":
         from labella.scale import LinearScale
         opts["scale"] = LinearScale()
+        if py.get("preuse"):
+            # the caller's scale OBJECT served an earlier chart (other data, other tick precision)
+            # before it is handed to this timeline, as examples/timeline_kit_5.py re-uses one
+            # options dict: the picture of THIS timeline must not depend on that past
+            from labella.timeline import TimelineSVG
+            lo, hi = py["preuse"]
+            pre = [{"time": lo, "width": 30}, {"time": (lo + hi) / 2.0, "width": 30}, {"time": hi, "width": 30}]
+            TimelineSVG(pre, {"scale": opts["scale"]}).export()
     if py.get("domain") is not None:
         opts["domain"] = [mk_time(x) for x in py["domain"]]
     for role, spec in py.get("colors", {}).items():
@@ -1435,6 +1443,9 @@ def gen_case(rng, kind, n=None, direction=None, algorithm=None, min_spacing=None
             colors[role] = rand_colour(rng, forms)
     py = {"data": data, "scale": scale, "domain": None if dom is None else [spec_of(x) for x in dom],
           "opts": opts, "colors": colors}
+    if scale == "linear" and rng.random() < 0.25:
+        # the scale object has drawn another chart before (different magnitude => different tick precision)
+        py["preuse"] = rng.choice([[1.0, 90.0], [0.05, 0.95], [1000.0, 250000.0], [-0.004, 0.003]])
     if kind == "random":
         kind = "%s/%s/%s" % (scale, shape if scale == "linear" else form, "explicit-domain" if dom is not None else "derived-domain")
     return {"kind": kind, "py": py}
